@@ -808,8 +808,7 @@ func main() {
 		}
 		return rn.nameID(s)
 	}
-	cw := vh.NewCases(a, "From Coq Require Import List NArith ZArith.\nFrom Verif Require Import C27.Model.\nImport ListNotations.\nOpen Scope Z_scope.", "case", "mismatches", 25)
-	wd := vh.NewWatchdog(rep, 20*time.Second)
+	cw := vh.NewCases(a, "From Coq Require Import List NArith ZArith.\nFrom Verif Require Import C27.Model.\nImport ListNotations.\nOpen Scope Z_scope.", "case", "mismatches", map[bool]int{false: 25, true: 150}[a.Thorough()])
 
 	var hists [][]source
 	var sets []fsCase
@@ -829,7 +828,7 @@ func main() {
 		rep.Extra["corpus_cases"] = len(hists) + len(sets)
 		nA, nB := 300, 400
 		if a.Thorough() {
-			nA, nB = 6000, 12000
+			nA, nB = 4000, 8000
 		}
 		if a.N > 0 {
 			nA, nB = a.N, a.N
@@ -848,6 +847,8 @@ func main() {
 			sets = append(sets, genFileSet(rng.Fork()))
 		}
 	}
+	// a generous limit: under heavy machine load the first fast.New() alone was seen to take many seconds
+	wd := vh.NewWatchdog(rep, 120*time.Second)
 	idx := 0
 	for _, h := range hists {
 		wd.Beat(h)
